@@ -5,6 +5,7 @@ package main
 
 import (
 	"crypto/ecdsa"
+	"crypto/sha256"
 	"time"
 	"encoding/binary"
 	"encoding/hex"
@@ -119,6 +120,7 @@ type hist struct {
 	cfg   string
 
 	reInstalled map[uint64]bool
+	ibcChannel  string
 	batchNonce  uint64
 
 	// generator bookkeeping (what the generator believes; never used by the monitor)
@@ -196,9 +198,21 @@ func (h *hist) mkClaim(o Op, bridger string) crosschaintypes.ExternalClaim {
 	switch o.CKind {
 	case "token":
 		// variant 0 of every nonce names the same token contract (so a later one fails "bridge token is exist")
+		// variants 1 and 2 are an adversarially close pair: same contract, the characters "T" moved across the
+		// name / symbol boundary ("TokT","K9") vs ("Tok","TK9") — different events that a careless hash would pool
+		tc := h.extAddr(50 + o.Variant)
+		name, symbol := "Tok", fmt.Sprintf("TK%d", o.Variant)
+		switch o.Variant {
+		case 0:
+			symbol = fxtypes.DefaultDenom
+		case 1:
+			tc, name, symbol = h.extAddr(51), "TokT", "K9"
+		case 2:
+			tc, name, symbol = h.extAddr(51), "Tok", "TK9"
+		}
 		return &crosschaintypes.MsgBridgeTokenClaim{
-			EventNonce: o.Nonce, BlockHeight: 1000 + o.Nonce, TokenContract: h.extAddr(50 + o.Variant),
-			Name: "Tok", Symbol: map[bool]string{true: fxtypes.DefaultDenom, false: fmt.Sprintf("TK%d", o.Variant)}[o.Variant == 0], Decimals: 18,
+			EventNonce: o.Nonce, BlockHeight: 1000 + o.Nonce, TokenContract: tc,
+			Name: name, Symbol: symbol, Decimals: 18,
 			BridgerAddress: bridger, ChainName: h.module,
 		}
 	case "oset":
@@ -218,10 +232,33 @@ func (h *hist) mkClaim(o Op, bridger string) crosschaintypes.ExternalClaim {
 			Value: sdkmath.ZeroInt(), Data: "", Memo: fmt.Sprintf("%02x", o.Variant),
 		}
 	case "call":
+		// variants 1 and 2 are an adversarially close pair: the same call except that characters move across the
+		// data / value boundary (data "ab12", value 3) vs (data "ab", value 123) — hex data, decimal value
+		to, data, value := h.extAddr(3+o.Variant), "", sdkmath.ZeroInt()
+		switch o.Variant {
+		case 1:
+			to, data, value = h.extAddr(4), "ab12", sdkmath.NewInt(3)
+		case 2:
+			to, data, value = h.extAddr(4), "ab", sdkmath.NewInt(123)
+		}
 		return &crosschaintypes.MsgBridgeCallClaim{
 			ChainName: h.module, BridgerAddress: bridger, EventNonce: o.Nonce, BlockHeight: 1000 + o.Nonce,
-			Sender: h.extAddr(1), Refund: h.extAddr(2), To: h.extAddr(3 + o.Variant), TxOrigin: h.extAddr(1),
-			Value: sdkmath.ZeroInt(), Data: "", Memo: "",
+			Sender: h.extAddr(1), Refund: h.extAddr(2), To: to, TxOrigin: h.extAddr(1),
+			Value: value, Data: data, Memo: "",
+		}
+	case "fxibc":
+		// SendToFx whose target is an IBC channel: variant 0 the transfer channel opened by the "channel" op (routable while
+		// it is OPEN), other variants a channel that does not exist (the IBC leg fails)
+		ch := "channel-77"
+		if o.Variant == 0 && h.ibcChannel != "" {
+			ch = h.ibcChannel
+		}
+		return &crosschaintypes.MsgSendToFxClaim{
+			EventNonce: o.Nonce, BlockHeight: 1000 + o.Nonce, TokenContract: h.extAddr(50),
+			Amount: sdkmath.NewInt(int64(5000 + o.Variant)), Sender: h.extAddr(4),
+			Receiver:  lib.EthKey(7, "receiver", 0).Acc().String(),
+			TargetIbc: hex.EncodeToString([]byte("px/transfer/" + ch)),
+			BridgerAddress: bridger, ChainName: h.module,
 		}
 	default: // "fx": SendToFx; even variants use the token registered by the "token" claim variant 0
 		tok := h.extAddr(50)
@@ -237,7 +274,9 @@ func (h *hist) mkClaim(o Op, bridger string) crosschaintypes.ExternalClaim {
 	}
 }
 
-func parks(ckind string) bool { return ckind == "fx" || ckind == "call" || ckind == "callre" }
+func parks(ckind string) bool {
+	return ckind == "fx" || ckind == "fxibc" || ckind == "call" || ckind == "callre"
+}
 
 // ---- re-entrant callback contract -------------------------------------------------------------
 // Runtime code (hand assembled, no solc in the sandbox):
@@ -305,6 +344,10 @@ func (h *hist) apply(o Op) (accepted bool, errStr string) {
 		bridger := h.bridgerKey(o.Bridger).Acc().String()
 		claim := h.mkClaim(o, bridger)
 		cls := h.classID(o.Nonce, claim.ClaimHash())
+		// the event's CONTENT (every field except who reports it), independent of how the code hashes it
+		if anyContent, e := codectypes.NewAnyWithValue(h.mkClaim(o, "")); e == nil {
+			pre.content = anyContent.TypeUrl + ":" + hex.EncodeToString(anyContent.Value)
+		}
 		pre.cls = cls
 		pre.hash = hex.EncodeToString(claim.ClaimHash())
 		anyClaim, e := codectypes.NewAnyWithValue(claim)
@@ -323,6 +366,7 @@ func (h *hist) apply(o Op) (accepted bool, errStr string) {
 		coqOps = append(coqOps, fmt.Sprintf("Vote %d %d %d %s %s", o.Bridger, o.Nonce, cls, lib.Bool(parks(o.CKind)), lib.ZList(mem)))
 	case "exec", "exec_evm":
 		before := h.c.DumpPrefix(h.c.Ctx, h.module, nil)
+		bankBefore := h.bankDigest()
 		if o.Kind == "exec" {
 			err, events = h.try(func(ctx sdk.Context) error { return h.x.Keeper.ExecuteClaim(ctx, o.Nonce) })
 		} else {
@@ -353,6 +397,7 @@ func (h *hist) apply(o Op) (accepted bool, errStr string) {
 		_, found := h.pendingHas(pre.pendingBefore, o.Nonce)
 		handlerOK := err == nil
 		_ = found
+		pre.bankChanged = bankBefore != h.bankDigest()
 		coqOps = append(coqOps, fmt.Sprintf("Exec %d %s", o.Nonce, lib.Bool(handlerOK)))
 	case "bond":
 		oc := h.orc[o.Oracle]
@@ -441,6 +486,18 @@ func (h *hist) apply(o Op) (accepted bool, errStr string) {
 			return nil
 		})
 		coqOps = append(coqOps, "ExportImport")
+	case "channel":
+		// an OPEN ibc transfer channel on the real app (no model operation)
+		if h.ibcChannel == "" {
+			_, h.ibcChannel = h.c.OpenTransferChannel(1)
+		}
+		return true, ""
+	case "chanstate":
+		// close (Window = 1) / re-open (Window = 0) the transfer channel (no model operation)
+		if h.ibcChannel != "" {
+			h.c.SetChannelClosed(h.c.Ctx, "transfer", h.ibcChannel, o.Window == 1)
+		}
+		return true, ""
 	case "install":
 		// a callback contract for the bridge call of event nonce o.Nonce that re-enters executeClaim(chain, nonce)
 		// (no model operation: nothing the model covers changes)
@@ -541,6 +598,21 @@ func (h *hist) apply(o Op) (accepted bool, errStr string) {
 		fmt.Printf("%-3d %-60s -> acc=%d lastObs=%d total=%s pending=%v err=%s\n", len(h.ops)-1, fmt.Sprintf("%+v", o), ob.acc, ob.lastObs, ob.total, ob.pending, short(err))
 	}
 	return err == nil, short(err)
+}
+
+// bankDigest: a digest of every balance and supply entry (gas price is 0 in the harness' EVM calls, so an execution
+// whose handler did nothing or was reverted leaves it unchanged)
+func (h *hist) bankDigest() [32]byte {
+	hh := sha256.New()
+	for _, kv := range h.c.DumpPrefix(h.c.Ctx, "bank", nil) {
+		hh.Write(kv.K)
+		hh.Write([]byte{0})
+		hh.Write(kv.V)
+		hh.Write([]byte{1})
+	}
+	var out [32]byte
+	copy(out[:], hh.Sum(nil))
+	return out
 }
 
 func (h *hist) pendingHas(p []uint64, n uint64) (int, bool) {
